@@ -2,6 +2,7 @@ package main
 
 import (
 	"fmt"
+	"go/token"
 
 	"golang.org/x/tools/go/ssa"
 )
@@ -82,19 +83,28 @@ func ruleAztecState(c *Ctx) {
 			}
 			for _, st := range fieldStores(fn, obj, "bitCount") {
 				add, ok := st.Val.(*ssa.BinOp)
-				var dphi *ssa.Phi
-				if ok {
-					if p, ok := add.Y.(*ssa.Phi); ok && p.Comment == "deltaBitCount" || ok && len(p.Edges) == 3 {
-						dphi = p
-					} else if p, ok := add.X.(*ssa.Phi); ok && len(p.Edges) == 3 {
-						dphi = p
+				// the per-byte cost: the operand of the sum whose alternatives are all constants
+				var delta []valCase
+				if ok && add.Op == token.ADD {
+					for _, op := range []ssa.Value{add.Y, add.X} {
+						cs := n.valueCases(fn, nil, op, 0)
+						allConst := len(cs) > 1
+						for _, k := range cs {
+							if _, isK := k.val.IsConst(); !isK {
+								allConst = false
+							}
+						}
+						if allConst {
+							delta = cs
+							break
+						}
 					}
 				}
-				if dphi == nil {
-					c.Undecided(R, "aztec.(*state).addBinaryShiftChar/delta", st.Pos(), "bit cost is not a three-way choice")
+				if delta == nil {
+					c.Undecided(R, "aztec.(*state).addBinaryShiftChar/delta", st.Pos(), "bit cost is not a choice of constants")
 					continue
 				}
-				checkPhiDef(c, R, "aztec.(*state).addBinaryShiftChar/delta", n, fn, dphi.Block().Idom(), dphi, []edgeSpec{
+				checkCases(c, R, "aztec.(*state).addBinaryShiftChar/delta", st.Pos(), delta, []edgeSpec{
 					{"18", "s.bShiftByteCount == 0 || s.bShiftByteCount == 31"},
 					{"9", "s.bShiftByteCount != 0 && s.bShiftByteCount != 31 && s.bShiftByteCount == 62"},
 					{"8", "s.bShiftByteCount != 0 && s.bShiftByteCount != 31 && s.bShiftByteCount != 62"}})
